@@ -15,10 +15,14 @@ git apply $out/patch.diff || { echo "PATCH DOES NOT APPLY"; exit 8; }
 echo "== build with patch"; go build ./... && echo build ok
 echo "== demo with patch"; go test -count=1 -run 'Seed' ./$pkg/ 2>&1 | grep -v "^\s*$" | tail -6
 rm -f $wt/$rel
+# the checks run from a snapshot of /verif: edits made meanwhile do not disturb the run, and the evidence / replays of the
+# patched tree do not overwrite those of the unchanged tree
+snap=/tmp/vsnap-$id; rm -rf $snap; mkdir -p $snap; rsync -a --exclude .work --exclude .git --exclude replays /verif/ $snap/
 for p in $props; do
   echo "== our check $p against the patched tree"
-  (cd /verif && VERIF_REPO=$wt ./check $p 2>&1 | grep "VIOLATION\|signature\|KNOWN\|ERROR\|drift" | cut -c1-300 | sort | uniq -c | head -20; )
+  (cd $snap && VERIF_REPO=$wt ./check $p 2>&1 | grep "VIOLATION\|signature\|KNOWN\|ERROR\|drift\|Traceback\|rror" | cut -c1-300 | sort | uniq -c | head -20; )
 done
 git checkout -q -- .
+rm -rf $snap
 } > $log 2>&1
 echo "done $id" >> $log
